@@ -97,5 +97,8 @@ def synchronize_terminal_measurements(
     ret.batch_remove(terminal_measurements)
     if ret[-1] and after_other_operations:
         ret.append(circuits.Moment())
+    # `find_terminal_measurements` returns them unordered; keep their order in time so that
+    # measurements sharing a key keep the order of their records.
+    terminal_measurements.sort(key=lambda t: (t[0], circuit[t[0]].operations.index(t[1])))
     ret[-1] = ret[-1].with_operations(op for _, op in terminal_measurements)
     return ret
